@@ -1,5 +1,6 @@
 (* Lemmas about Model/NameFactory.v (MinifyNameFactory of pico8/lua/lua.py). *)
 From PV Require Import Base.Prelude Generated.T_luanames Generated.T_lexer Model.NameFactory.
+From PV Require Import Generated.T_minwiring_lua Generated.T_minwiring_tool Generated.T_minwiring_build.
 From Coq Require Import ZifyBool.
 Ltac Zify.zify_post_hook ::= Z.to_euclidean_division_equations.
 
@@ -10,6 +11,52 @@ Proof. reflexivity. Qed.
 
 Lemma pin_nfi_return_src :
   nfi_return_src = "first + bytes([MinifyNameFactory.NAME_CHARS[id % len(MinifyNameFactory.NAME_CHARS)]])"%bs.
+Proof. reflexivity. Qed.
+
+(* the control flow Model.get_short_name mirrors (docstring and util.debug call dropped) *)
+Lemma pin_gsn_body_src : gsn_body_src =
+"if self._keep_all_names:
+    return name
+if name in MinifyNameFactory.PRESERVED_NAMES:
+    return name
+if self._names_to_keep is not None and name in self._names_to_keep:
+    return name
+if name not in self._name_map:
+    new_name = None
+    while True:
+        new_name = self._name_for_id(self._next_name_id)
+        self._next_name_id += 1
+        if new_name not in MinifyNameFactory.PRESERVED_NAMES:
+            break
+    self._name_map[name] = new_name
+return self._name_map[name]"%bs.
+Proof. reflexivity. Qed.
+
+(* the writer: one factory per run, names and labels (without their colons) go through it *)
+Lemma pin_mtw_factory_src : mtw_factory_src =
+"MinifyNameFactory(keep_property_names=self._args.get('keep_property_names', False), keep_all_names=self._args.get('keep_all_names', False), keep_names_from_file=self._args.get('keep_names_from_file'))"%bs.
+Proof. reflexivity. Qed.
+Lemma pin_mtw_name_call_src : mtw_name_call_src = "self._name_factory.get_short_name(token.code)"%bs.
+Proof. reflexivity. Qed.
+Lemma pin_mtw_label_call_src : mtw_label_call_src = "self._name_factory.get_short_name(token.code[2:-2])"%bs.
+Proof. reflexivity. Qed.
+Lemma pin_mtw_branch_tests_src :
+  mtw_branch_tests_src = "token.matches(lexer.TokName) | token.matches(lexer.TokLabel)"%bs.
+Proof. reflexivity. Qed.
+
+(* the command-line wiring modelled by luamin_config / build_minify_config *)
+Lemma pin_luamin_writer_src : luamin_writer_src =
+"lua_writer_cls=lua.LuaMinifyTokenWriter, lua_writer_args={'keep_all_names': args.keep_all_names, 'keep_names_from_file': args.keep_names_from_file}"%bs.
+Proof. reflexivity. Qed.
+Lemma pin_build_writer_selection_src : build_writer_selection_src =
+"lua_writer_cls = None
+lua_writer_args = None
+if getattr(args, 'lua_format', False):
+    lua_writer_cls = (lua.LuaFormatterWriter,)
+    lua_writer_args = {'indentwidth': args.indentwidth, 'keep_all_names': args.keep_all_names, 'keep_names_from_file': args.keep_names_from_file}
+elif getattr(args, 'lua_minify', False):
+    lua_writer_cls = lua.LuaMinifyTokenWriter
+file.to_file(result, filename=args.filename, lua_writer_cls=lua_writer_cls, lua_writer_args=lua_writer_args)"%bs.
 Proof. reflexivity. Qed.
 
 (* ---------- the regenerated kernels and tables, as the proofs use them ---------- *)
@@ -542,3 +589,16 @@ Proof.
   split; [vm_compute; reflexivity|]. split; [left; reflexivity|]. split; [right; left; reflexivity|].
   discriminate.
 Qed.
+
+(* S3: build --lua-minify --keep-all-names renames anyway (the options never reach the factory) *)
+Lemma build_keep_options_refuted :
+  exists names outs n o,
+    run_factory (build_minify_config true None) names = Ok outs /\ observed names outs n o /\ o <> n.
+Proof.
+  exists [unBS "foo"%bs], [unBS "a"%bs], (unBS "foo"%bs), (unBS "a"%bs).
+  split; [vm_compute; reflexivity|]. split; [left; reflexivity | discriminate].
+Qed.
+
+(* tool.luamin hands both options to the factory *)
+Lemma luamin_config_spec ka kf : luamin_config ka kf = mk_config ka kf.
+Proof. reflexivity. Qed.
